@@ -4,7 +4,7 @@ use super::*;
 use crate::monalloc::MonHandle;
 use crate::tr::{Tr, TrZ};
 use bump_scope::settings::BumpAllocatorSettings;
-use bump_scope::{BaseAllocator, BumpBox, BumpScope, BumpVec, FixedBumpVec, MutBumpVec, MutBumpVecRev};
+use bump_scope::{BaseAllocator, Bump, BumpBox, BumpScope, BumpVec, FixedBumpVec, MutBumpVec, MutBumpVecRev};
 
 macro_rules! core_common {
     ($E:ty, $name:literal) => {
@@ -101,6 +101,58 @@ macro_rules! within_copy_or_clone {
     };
 }
 
+macro_rules! try_copy_or_clone {
+    (copy, $self:ident, $s:ident) => {
+        Self::try_extend_from_slice_copy($self, $s)
+    };
+    (clone, $self:ident, $s:ident) => {
+        Self::try_extend_from_slice_clone($self, $s)
+    };
+}
+macro_rules! try_within_copy_or_clone {
+    (copy, $self:ident, $r:ident) => {
+        Self::try_extend_from_within_copy($self, $r)
+    };
+    (clone, $self:ident, $r:ident) => {
+        Self::try_extend_from_within_clone($self, $r)
+    };
+}
+
+/// index of the element at `addr` (usize::MAX for zero-sized elements, where addresses say nothing)
+fn index_of<E>(s: &[E], addr: usize) -> usize {
+    if size_of::<E>() == 0 { usize::MAX } else { addr.wrapping_sub(s.as_ptr() as usize) / size_of::<E>() }
+}
+
+/// An iterator whose lower size bound is whatever the history says and whose `next` may panic (fuel).
+pub struct HintIter<I> {
+    pub it: I,
+    pub hint: usize,
+}
+impl<I: Iterator> Iterator for HintIter<I> {
+    type Item = I::Item;
+    fn next(&mut self) -> Option<I::Item> {
+        crate::tr::burn();
+        self.it.next()
+    }
+    fn size_hint(&self) -> (usize, Option<usize>) {
+        (self.hint, None)
+    }
+}
+
+/// consumes `k` elements from the front and `j` from the back of an owned-slice iterator
+fn pull<T>(it: &mut (impl Iterator<Item = T> + DoubleEndedIterator), k: usize, j: usize) {
+    for _ in 0..k {
+        if it.next().is_none() {
+            break;
+        }
+    }
+    for _ in 0..j {
+        if it.next_back().is_none() {
+            break;
+        }
+    }
+}
+
 macro_rules! grow_impl {
     ($E:ty, $cc:tt, $exact:tt, $shrink:tt) => {
         fn push(&mut self, e: $E) {
@@ -160,9 +212,189 @@ macro_rules! grow_impl {
         fn try_reserve(&mut self, n: usize) -> Result<(), AllocError> {
             Self::try_reserve(self, n)
         }
+        fn try_push_with(&mut self, f: &mut dyn FnMut() -> $E) -> Result<(), AllocError> {
+            Self::try_push_with(self, || f())
+        }
+        fn push_mut(&mut self, e: $E) -> (u32, usize) {
+            let r = Self::push_mut(self, e);
+            let (val, addr) = (r.val(), r as *mut $E as usize);
+            (val, index_of::<$E>(self.as_slice(), addr))
+        }
+        fn try_push_mut(&mut self, e: $E) -> Result<(u32, usize), AllocError> {
+            let r = Self::try_push_mut(self, e)?;
+            let (val, addr) = (r.val(), r as *mut $E as usize);
+            Ok((val, index_of::<$E>(self.as_slice(), addr)))
+        }
+        fn push_mut_with(&mut self, f: &mut dyn FnMut() -> $E) -> (u32, usize) {
+            let r = Self::push_mut_with(self, || f());
+            let (val, addr) = (r.val(), r as *mut $E as usize);
+            (val, index_of::<$E>(self.as_slice(), addr))
+        }
+        fn try_push_mut_with(&mut self, f: &mut dyn FnMut() -> $E) -> Result<(u32, usize), AllocError> {
+            let r = Self::try_push_mut_with(self, || f())?;
+            let (val, addr) = (r.val(), r as *mut $E as usize);
+            Ok((val, index_of::<$E>(self.as_slice(), addr)))
+        }
+        fn insert_mut(&mut self, i: usize, e: $E) -> (u32, usize) {
+            let r = Self::insert_mut(self, i, e);
+            let (val, addr) = (r.val(), r as *mut $E as usize);
+            (val, index_of::<$E>(self.as_slice(), addr))
+        }
+        fn try_insert_mut(&mut self, i: usize, e: $E) -> Result<(u32, usize), AllocError> {
+            let r = Self::try_insert_mut(self, i, e)?;
+            let (val, addr) = (r.val(), r as *mut $E as usize);
+            Ok((val, index_of::<$E>(self.as_slice(), addr)))
+        }
+        fn try_extend_from_slice_copy(&mut self, s: &[$E]) -> Result<(), AllocError> {
+            try_copy_or_clone!($cc, self, s)
+        }
+        fn try_extend_from_within_copy(&mut self, r: (Bound<usize>, Bound<usize>)) -> Result<(), AllocError> {
+            try_within_copy_or_clone!($cc, self, r)
+        }
+        fn try_extend_from_within_clone(&mut self, r: (Bound<usize>, Bound<usize>)) -> Result<(), AllocError> {
+            Self::try_extend_from_within_clone(self, r)
+        }
+        fn try_resize_with(&mut self, n: usize, f: &mut dyn FnMut() -> $E) -> Result<(), AllocError> {
+            Self::try_resize_with(self, n, || f())
+        }
+        fn extend_iter(&mut self, vals: Vec<$E>, by_ref: bool, hint: usize) {
+            if by_ref {
+                Extend::extend(self, HintIter { it: vals.iter(), hint });
+            } else {
+                Extend::extend(self, HintIter { it: vals.into_iter(), hint });
+            }
+        }
+        fn append_src(&mut self, kind: usize, vals: Vec<$E>, k: usize, j: usize, try_: bool) -> Result<(), AllocError> {
+            macro_rules! go {
+                ($src:expr) => {{
+                    let src = $src;
+                    if try_ {
+                        Self::try_append(self, src)
+                    } else {
+                        Self::append(self, src);
+                        Ok(())
+                    }
+                }};
+            }
+            let mut side: Bump = Bump::new();
+            match kind {
+                0 => go!(vals.into_boxed_slice()),
+                1 => go!(side.alloc_slice_move(vals)),
+                2 => go!(FixedBumpVec::from_iter_exact_in(vals, &side)),
+                3 => go!(BumpVec::from_owned_slice_in(vals, &side)),
+                4 => go!(MutBumpVec::from_owned_slice_in(vals, &mut side)),
+                5 => go!(MutBumpVecRev::from_owned_slice_in(vals, &mut side)),
+                6 => {
+                    let mut it = side.alloc_slice_move(vals).into_iter();
+                    pull(&mut it, k, j);
+                    go!(it)
+                }
+                7 => {
+                    let mut b = side.alloc_slice_move(vals);
+                    let n = b.len();
+                    let mut d = b.drain(k.min(n)..);
+                    pull(&mut d, 0, j);
+                    go!(d)
+                }
+                8 => {
+                    let mut it = vals.into_iter();
+                    pull(&mut it, k, j);
+                    go!(it)
+                }
+                9 => {
+                    let mut v = vals;
+                    let n = v.len();
+                    let mut d = v.drain(k.min(n)..);
+                    pull(&mut d, 0, j);
+                    go!(d)
+                }
+                10 => {
+                    let mut v = vals;
+                    let r = go!(&mut v);
+                    if r.is_ok() && !v.is_empty() {
+                        panic!("source `&mut Vec` still holds {} elements after append", v.len());
+                    }
+                    r
+                }
+                11 => {
+                    let mut v = BumpVec::from_owned_slice_in(vals, &side);
+                    let r = go!(&mut v);
+                    if r.is_ok() && !v.is_empty() {
+                        panic!("source `&mut BumpVec` still holds {} elements after append", v.len());
+                    }
+                    r
+                }
+                12 => match <[$E; 3]>::try_from(vals) {
+                    Ok(a) => go!(side.alloc(a)),
+                    Err(v) => go!(v),
+                },
+                _ => match <[$E; 3]>::try_from(vals) {
+                    Ok(a) => go!(Box::new(a)),
+                    Err(v) => go!(v),
+                },
+            }
+        }
         grow_impl!(@exact $exact);
         grow_impl!(@shrink $shrink);
     };
+    (@spare fwd, $E:ty) => {
+        fn spare_fill(&mut self, vals: Vec<$E>, via_split: bool, expect: &[u32]) -> bool {
+            let (len, k) = (self.len(), vals.len());
+            let mut ok = true;
+            let spare = if via_split {
+                let (init, spare) = Self::split_at_spare_mut(self);
+                ok = init.iter().map(|e| e.val()).eq(expect.iter().copied());
+                spare
+            } else {
+                Self::spare_capacity_mut(self)
+            };
+            assert!(spare.len() >= k, "spare capacity smaller than capacity - len");
+            for (i, e) in vals.into_iter().enumerate() {
+                spare[i].write(e);
+            }
+            unsafe { Self::set_len(self, len + k) };
+            ok
+        }
+    };
+    (@spare rev, $E:ty) => {
+        fn spare_fill(&mut self, vals: Vec<$E>, via_split: bool, expect: &[u32]) -> bool {
+            let (len, k) = (self.len(), vals.len());
+            let mut ok = true;
+            let spare = if via_split {
+                let (init, spare) = Self::split_at_spare_mut(self);
+                ok = init.iter().map(|e| e.val()).eq(expect.iter().copied());
+                spare
+            } else {
+                Self::spare_capacity_mut(self)
+            };
+            assert!(spare.len() >= k, "spare capacity smaller than capacity - len");
+            let base = spare.len() - k;
+            for (i, e) in vals.into_iter().enumerate() {
+                spare[base + i].write(e);
+            }
+            unsafe { Self::set_len(self, len + k) };
+            ok
+        }
+    };
+    (@spare none, $E:ty) => {
+        fn spare_fill(&mut self, _vals: Vec<$E>, _via_split: bool, _expect: &[u32]) -> bool {
+            unreachable!("fixed vectors have no spare-capacity view")
+        }
+    };
+    (@reserve_exact yes) => {
+        fn reserve_exact(&mut self, n: usize) -> bool {
+            Self::reserve_exact(self, n);
+            true
+        }
+    };
+    (@reserve_exact no) => {};
+    (@shrink_to yes) => {
+        fn shrink_to(&mut self, n: usize) -> bool {
+            Self::shrink_to(self, n);
+            true
+        }
+    };
+    (@shrink_to no) => {};
     (@exact yes) => {
         fn try_reserve_exact(&mut self, n: usize) -> Option<Result<(), AllocError>> {
             Some(Self::try_reserve_exact(self, n))
@@ -235,6 +467,9 @@ macro_rules! families_for {
         }
         impl<'b> VecGrow<$E> for FixedBumpVec<'b, $E> {
             grow_impl!($E, $cc, no, no);
+            grow_impl!(@spare none, $E);
+            grow_impl!(@reserve_exact no);
+            grow_impl!(@shrink_to no);
         }
 
         impl<'b, A, S> VecCore<$E> for BumpVec<$E, &'b BumpScope<'b, A, S>>
@@ -270,6 +505,9 @@ macro_rules! families_for {
             S: BumpAllocatorSettings,
         {
             grow_impl!($E, $cc, yes, yes);
+            grow_impl!(@spare fwd, $E);
+            grow_impl!(@reserve_exact yes);
+            grow_impl!(@shrink_to yes);
         }
 
         impl<'b, A, S> VecCore<$E> for MutBumpVec<$E, &'b mut BumpScope<'b, A, S>>
@@ -305,6 +543,9 @@ macro_rules! families_for {
             S: BumpAllocatorSettings,
         {
             grow_impl!($E, $cc, yes, no);
+            grow_impl!(@spare fwd, $E);
+            grow_impl!(@reserve_exact yes);
+            grow_impl!(@shrink_to no);
         }
 
         impl<'b, A, S> VecCore<$E> for MutBumpVecRev<$E, &'b mut BumpScope<'b, A, S>>
@@ -333,6 +574,9 @@ macro_rules! families_for {
             S: BumpAllocatorSettings,
         {
             grow_impl!($E, $cc, yes, no);
+            grow_impl!(@spare rev, $E);
+            grow_impl!(@reserve_exact yes);
+            grow_impl!(@shrink_to no);
         }
     };
 }
